@@ -72,6 +72,11 @@ def build_unit(name, unit):
             fn = X.find_method(s, it["impl"], it["fn"])
         else:
             fn = X.find_fn(s, it["fn"])
+        if it.get("block"):
+            # BLOCK OUTLINING: a block of the function (e.g. the critical section that holds a lock guard) is
+            # copied VERBATIM into a function of its own whose parameters are the block's free variables
+            # (signature given by the recipe). The block text is then treated like any extracted body.
+            fn = X.outline_block(fn, it["block"], log)
         recipe = dict(it)
         # substitute constants into rewrite replacements
         rw = []
@@ -85,7 +90,7 @@ def build_unit(name, unit):
                 recipe["spec"] = recipe["spec"].replace("@" + k + "@", v)
         text = X.render_fn(fn, recipe, log)
         groups.setdefault(it.get("impl"), []).append(text)
-        qn = (it["impl"] + "::" if it.get("impl") else "") + it["fn"]
+        qn = (it["impl"] + "::" if it.get("impl") else "") + it["fn"] + (" [block -> fn " + it["block"]["name"] + "]" if it.get("block") else "")
         log["functions"].append({"name": qn, "file": rel,
                                  "verbatim_body_sha": _sha(fn["body"]),
                                  "lines": s[:fn["sig_start"]].count("\n") + 1})
@@ -167,11 +172,25 @@ def run_unit(name, unit, timeout=300):
         pass
     res["solver_time_ms"] = out.get("times-ms", {}).get("smt", {}).get("smt-run")
     fstat = {f["function"].split("::", 1)[-1]: f for f in funcs}
-    canary = fstat.get("verif_canary")
-    if canary is None or canary.get("success", True):
+    canaries = {k: v for k, v in fstat.items() if k.startswith("verif_canary")}
+    if "verif_canary" not in canaries or any(c.get("success", True) for c in canaries.values()):
         res["status"] = "undecided"
-        res["notes"].append("vacuity canary did not fail: the Verus pipeline cannot say no")
+        res["notes"].append("a vacuity/consistency canary did not fail (%s): the pipeline cannot say no, or the assumed axioms are inconsistent"
+                            % [k for k, c in canaries.items() if c.get("success", True)])
         return res
+    # lines inside canary functions (their failures are expected)
+    canary_lines = set()
+    with open(path) as f:
+        src_lines = f.read().split("\n")
+    inside, depth = False, 0
+    for n, line in enumerate(src_lines, 1):
+        if re.search(r"fn verif_canary\w*", line):
+            inside, depth = True, 0
+        if inside:
+            canary_lines.add(n)
+            depth += line.count("{") - line.count("}")
+            if depth <= 0 and "}" in line:
+                inside = False
     # Map error lines -> tags.
     tags = tags_by_line(path)
     all_tags = sorted(set(tags.values()))
@@ -181,6 +200,8 @@ def run_unit(name, unit, timeout=300):
         if not blk.startswith("error"):
             continue
         if "verif_canary" in blk or re.search(r"ensures r == 1,", blk):
+            continue
+        if any(ln in canary_lines for ln in [int(x) for x in re.findall(r"-->\s*\S+?:(\d+):\d+", blk)]):
             continue
         if blk.startswith("error: aborting"):
             continue
@@ -197,7 +218,7 @@ def run_unit(name, unit, timeout=300):
                                    "status": "failed" if t in failed_tags else "discharged"})
     # lemmas / functions without tags count as one obligation each
     for fname, f in fstat.items():
-        if fname == "verif_canary":
+        if fname.startswith("verif_canary"):
             continue
         res["obligations"].append({"name": f"{unit['property']}/verus/{name}/fn:{fname}", "engine": "verus/z3",
                                    "class": "complete(unbounded)",
@@ -219,5 +240,23 @@ def run_unit(name, unit, timeout=300):
     for o in res["obligations"]:
         if o["status"] == "fn-failed":
             o["status"] = "failed" if res["status"] == "failed" else "undecided"
-    res["trusted"] = unit.get("trusted", [])
+    res["trusted"] = list(unit.get("trusted", [])) + scan_assumptions(path, name)
     return res
+
+
+def scan_assumptions(path, name):
+    """Mechanical scan of the generated Verus file for everything that is assumed rather than proved."""
+    with open(path) as f:
+        text = f.read()
+    ext = re.findall(r"#\[verifier::external_body\]\s*(?:pub\s+)?(?:broadcast\s+)?(?:proof\s+)?(?:fn|struct)\s+(\w+)", text)
+    spec = re.findall(r"assume_specification[^\[;{]*\[([^\]]+)\]", text)
+    unint = re.findall(r"uninterp\s+spec\s+fn\s+(\w+)", text)
+    n_admit = len(re.findall(r"\badmit\(\)", text))
+    n_assume = len(re.findall(r"(?<![\w:])assume\(", text))
+    out = [f"scan verus/{name}: {len(ext)} external_body items (assumed contracts / opaque types): {', '.join(sorted(set(ext)))}"]
+    if spec:
+        out.append(f"scan verus/{name}: assume_specification for std items: {', '.join(sorted(set(x.strip() for x in spec)))}")
+    if unint:
+        out.append(f"scan verus/{name}: uninterpreted spec functions: {', '.join(sorted(set(unint)))}")
+    out.append(f"scan verus/{name}: {n_admit} admit(), {n_assume} assume() in the generated file")
+    return out
